@@ -900,7 +900,7 @@ def register_whole(R):
             ("the-pending-chain-starts-at-a-tip-or-furcation-and-continues-through-pass-through-nodes",
              z3.And(nk(c(0)) != 1, z3.ForAll([j], z3.Implies(z3.And(1 <= j, j < lc), nk(c(j)) == 1), patterns=[c(j)]))),
             ("every-closed-branch-starts-at-a-furcation-and-ends-at-a-furcation-or-tip",
-             z3.ForAll([i], z3.Implies(ini, z3.And(L(i) >= 2, nk(b(i, 0)) >= 2, nk(b(i, L(i) - 1)) != 1)), patterns=[L(i)])),
+             z3.ForAll([i], z3.Implies(ini, z3.And(L(i) >= 2, nk(b(i, 0)) >= 2, nk(b(i, L(i) - 1)) != 1)), patterns=[L(i), b(i, 0)])),
             ("every-closed-branch-descends-from-parent-to-child",
              z3.ForAll([i, j], z3.Implies(z3.And(ini, 0 <= j, j < L(i)), z3.And(R_(b(i, j)), z3.Implies(j >= 1, sel(P, b(i, j)) == b(i, j - 1)))), patterns=[b(i, j)])),
             ("every-closed-branch-has-only-pass-through-nodes-inside",
@@ -1085,12 +1085,14 @@ def register_whole(R):
                 return z3.ForAll([i, j], z3.Implies(z3.And(ini, 1 <= j, j < sel(LEN, i) - 1), one_child(t, at(i, j))))
             lc, hn = hlc9(0), hn9(0)
             closing = decided(E, lc > 1)  # the pending chain of the root has an edge: it is closed as a branch that starts at the root
+            q = z3.Int(fresh_name("q"))
+            inq = z3.And(0 <= q, q < m)
             if which == "pending-chain-of-more-than-one-node-closed-root-first":
-                return ite(closing, z3.And(lc > 1, m == hn + 1, sel(LEN, 0) == lc, z3.ForAll([j], z3.Implies(z3.And(0 <= j, j < lc), at(0, j) == hc9(0, lc - 1 - j)))), z3.And(lc <= 1, m == hn))
-            if which == "every-branch-of-the-traversal-kept-once":
-                ri = ite(closing, hn - i, i)
-                return z3.And(z3.ForAll([i], z3.Implies(z3.And(0 <= i, i < hn), z3.And(0 <= ri, ri < m, sel(LEN, ri) == hLEN9(0, i)))),
-                              z3.ForAll([i, j], z3.Implies(z3.And(0 <= i, i < hn, 0 <= j, j < hLEN9(0, i)), at(ri, j) == hB9(0, i, j))))
+                # (where in the list the closing branch stands is not part of the property)
+                return ite(closing, z3.And(lc > 1, m == hn + 1, z3.Exists([q], z3.And(inq, sel(LEN, q) == lc, z3.ForAll([j], z3.Implies(z3.And(0 <= j, j < lc), at(q, j) == hc9(0, lc - 1 - j)))))),
+                           z3.And(lc <= 1, m == hn))
+            if which == "every-branch-of-the-traversal-kept":
+                return z3.ForAll([i], z3.Implies(z3.And(0 <= i, i < hn), z3.Exists([q], z3.And(inq, sel(LEN, q) == hLEN9(0, i), z3.ForAll([j], z3.Implies(z3.And(0 <= j, j < hLEN9(0, i)), at(q, j) == hB9(0, i, j)))))))
             own, inch, pos, bi, bp = g9(v)
             u, i2, j2 = z3.Int(fresh_name("u")), z3.Int(fresh_name("i2")), z3.Int(fresh_name("j2"))
             fi = ite(closing, z3.If(sel(inch, u), 0, hn - sel(bi, u)), sel(bi, u))
@@ -1129,6 +1131,14 @@ def register_whole(R):
         ini = z3.And(0 <= i, i < m)
         voc2 = [ctx.nkids, ctx.P, ctx.n, IDX, LEN, m, hB9, hn9, hLEN9, hc9, hlc9]
         st2 = lambda nm, f_: X.prove_in_vocabulary(E, f"Tree.get_branches/step/{nm}", f_, voc2)
+        lc, hn = hlc9(0), hn9(0)
+        closing = decided(E, lc > 1)
+        other = z3.And(ini, z3.Not(z3.And(closing, i == 0)))
+        ri = ite(closing, hn - i, i)
+        if z3.is_true(closing):
+            st2("the-branch-that-closes-the-pending-chain-of-the-root-starts-at-the-root", z3.And(ctx.R(at(0, 0)), at(0, 0) == 0))
+        st2("a-branch-closed-during-the-traversal-starts-at-a-node-with-two-or-more-children",
+            z3.ForAll([i], z3.Implies(other, z3.And(at(i, 0) == hB9(0, ri, 0), ctx.R(at(i, 0)), ctx.nkids(at(i, 0)) >= 2)), patterns=[sel(LEN, i)]))
         st2("every-branch-starts-at-the-root-or-at-a-node-with-two-or-more-children", z3.ForAll([i], z3.Implies(ini, z3.And(ctx.R(at(i, 0)), z3.Or(at(i, 0) == 0, ctx.nkids(at(i, 0)) >= 2))), patterns=[sel(LEN, i)]))
         st2("every-branch-ends-at-a-node-that-has-not-exactly-one-child", z3.ForAll([i], z3.Implies(ini, z3.And(ctx.R(at(i, sel(LEN, i) - 1)), ctx.nkids(at(i, sel(LEN, i) - 1)) != 1)), patterns=[sel(LEN, i)]))
         st2("every-interior-node-of-a-branch-has-exactly-one-child", z3.ForAll([i, j], z3.Implies(z3.And(ini, 1 <= j, j < sel(LEN, i) - 1), z3.And(ctx.R(at(i, j)), ctx.nkids(at(i, j)) == 1)), patterns=[at(i, j)]))
@@ -1144,9 +1154,15 @@ def register_whole(R):
         at = lambda a, b: sel(sel(IDX, a), b)
         ri = ite(closing, hn - i, i)
         other = z3.And(0 <= i, i < m, z3.Not(z3.And(closing, i == 0)))
+        if z3.is_true(closing):
+            E.prove("Tree.get_branches/step/the-first-branch-of-the-result-closes-the-pending-chain-of-the-root-root-first",
+                    z3.And(m == hn + 1, sel(LEN, 0) == lc, z3.ForAll([j], z3.Implies(z3.And(0 <= j, j < lc), at(0, j) == hc9(0, lc - 1 - j)), patterns=[at(0, j)])), "annotation")
         E.prove("Tree.get_branches/step/a-branch-other-than-the-closing-one-is-a-branch-of-the-traversal",
                 z3.And(z3.ForAll([i], z3.Implies(other, z3.And(0 <= ri, ri < hn, sel(LEN, i) == hLEN9(0, ri))), patterns=[sel(LEN, i)]),
                        z3.ForAll([i, j], z3.Implies(z3.And(other, 0 <= j, j < sel(LEN, i)), at(i, j) == hB9(0, ri, j)), patterns=[at(i, j)])), "annotation")
+        E.prove("Tree.get_branches/step/a-branch-of-the-traversal-is-a-branch-of-the-result",
+                z3.ForAll([i], z3.Implies(z3.And(0 <= i, i < hn), z3.And(0 <= ri, ri < m, z3.Not(z3.And(closing, ri == 0)), ite(closing, hn - ri, ri) == i, sel(LEN, ri) == hLEN9(0, i), z3.ForAll([j], z3.Implies(z3.And(0 <= j, j < hLEN9(0, i)), at(ri, j) == hB9(0, i, j))))),
+                          patterns=[hLEN9(0, i)]), "annotation")
 
     def gbw_hint_edges(which):
         def f(E, vars):
@@ -1192,12 +1208,12 @@ def register_whole(R):
             if first is not None:
                 first(E, vars)
             ctx, t, res = E.ghost["last-traverse-ctx"], vars["self"], E.ghost["gb-result"]
-            voc = [ctx.P, ctx.n, res.cols[0], res.cols[1], zint(res.n)] + ([ctx.nkids, col(t, "id").arr] if kind == "shape" else list(g9(vars)) + [hn9, hlc9])
+            voc = [ctx.P, ctx.n, res.cols[0], res.cols[1], zint(res.n)] + ([ctx.nkids, col(t, "id").arr] if kind == "shape" else [hn9, hlc9, hLEN9, hB9, hc9] if kind == "map" else list(g9(vars)) + [hn9, hlc9])
             X.prove_in_vocabulary(E, f"Tree.get_branches/step/{which}-from-the-steps", E.ghost[("gb-post", which)], voc)
 
         return f
 
-    GBW = ["branches-attached-to-this-tree", "pending-chain-of-more-than-one-node-closed-root-first", "every-branch-of-the-traversal-kept-once",
+    GBW = ["branches-attached-to-this-tree", "pending-chain-of-more-than-one-node-closed-root-first", "every-branch-of-the-traversal-kept",
            "every-branch-has-an-edge-and-consecutive-entries-are-parent-and-child", "every-branch-starts-at-the-root-or-a-furcation",
            "every-branch-ends-at-a-furcation-or-a-tip", "interior-nodes-are-pass-through",
            "every-edge-lies-in-a-branch-at-its-recorded-place", "every-edge-lies-in-some-branch", "no-edge-lies-in-two-branches-or-twice-in-one"]
@@ -1205,7 +1221,8 @@ def register_whole(R):
           ensures=[(w, gbw_post(w)) for w in GBW],
           inlined_loops={f"{TREE}:Tree.get_branches.<locals>.collect_branches": {0: CB_LOOP}},
           options=dict(OPTS, traverse_rule=Rule(gb_J, Ql=gb_Ql, modifies=["G9"], leave_kind=gb_leave_kind, leave_args=gb_leave_args, ghost_leave=gb_ghost_leave2),
-                       hints={"post/every-branch-has-an-edge-and-consecutive-entries-are-parent-and-child": gbw_hint_mapping,
+                       hints={"post/pending-chain-of-more-than-one-node-closed-root-first": gbw_then_post("pending-chain-of-more-than-one-node-closed-root-first", gbw_hint_mapping, kind="map"),
+                              "post/every-branch-of-the-traversal-kept": gbw_then_post("every-branch-of-the-traversal-kept", kind="map"),
                               "post/every-branch-starts-at-the-root-or-a-furcation": gbw_then_post("every-branch-starts-at-the-root-or-a-furcation", gbw_hint),
                               "post/every-branch-ends-at-a-furcation-or-a-tip": gbw_then_post("every-branch-ends-at-a-furcation-or-a-tip"),
                               "post/interior-nodes-are-pass-through": gbw_then_post("interior-nodes-are-pass-through"),
